@@ -245,26 +245,12 @@ def bookkeeping(idx, rep):
         rep.missing_anchor("while_loop_winfo (numpy/torch)")
         return
     f = fs[-1]
-    new_while = next((g for g in f.nested.values() if any(isinstance(c.func, ast.Name) and c.func.id == "while_loop" for c in df.calls(g.node))), None)
-    if new_while is None:
-        rep.undecided("iteration-count", "while_loop_winfo", "inner while_loop call not found")
-        return
-    wl = [c for c in df.calls(new_while.node, into_nested=False) if isinstance(c.func, ast.Name) and c.func.id == "while_loop"][0]
-    b = df.bind_call(wl, ["cond_fun", "body_fun", "init_val"])
-    where = None
-    for g in new_while.nested.values():
-        for n in df.body_nodes(g.node):
-            if isinstance(n, ast.AugAssign) and nospace(n.target) in ("info['iterations']", 'info["iterations"]'):
-                where = g
-    if where is None:
-        rep.undecided("iteration-count", "while_loop_winfo", "no increment of info['iterations'] found")
-        return
-    in_cond = isinstance(b.get("cond_fun"), ast.Name) and b["cond_fun"].id == where.name
-    in_body = isinstance(b.get("body_fun"), ast.Name) and b["body_fun"].id == where.name
-    if in_body:
-        rep.proved("iteration-count", "while_loop_winfo", f"info['iterations'] is incremented in the body wrapper `{where.name}`", locs=[idx.loc(f.module, where.node)])
-    elif in_cond:
-        rep.refuted("iteration-count", "while_loop_winfo", f"info['iterations'] is incremented in the cond wrapper `{where.name}`, which runs once more than the body: the reported step count is "
-                    "steps + 1 (max_iters = 3 reports 4)", detail="counted-in-cond", locs=[idx.loc(f.module, where.node)])
+    sites = [x for x in lp.runner_iteration_sites(idx) if x[0] is f]
+    role, node = (sites[0][1], sites[0][2]) if sites else (None, None)
+    if role is None:
+        rep.undecided("iteration-count", "while_loop_winfo", "no increment of info['iterations'] found in the condition or the body handed to the inner loop")
+    elif role == "body":
+        rep.proved("iteration-count", "while_loop_winfo", "info['iterations'] is incremented in the body wrapper", locs=[idx.loc(f.module, node)])
     else:
-        rep.undecided("iteration-count", "while_loop_winfo", f"increment lives in `{where.name}`, neither cond nor body of the inner loop")
+        rep.refuted("iteration-count", "while_loop_winfo", "info['iterations'] is incremented in the condition wrapper, which runs once more than the body: the reported step count is "
+                    "steps + 1 (max_iters = 3 reports 4)", detail="counted-in-cond", locs=[idx.loc(f.module, node)])
